@@ -109,3 +109,15 @@ def patched(pairs):
 
 
 real_open = builtins.open
+
+
+def make_path_class(osproxy):
+    """pathlib.Path look-alike whose iterdir() yields a seeded permutation of the sorted real listing"""
+    import pathlib
+
+    class SimPath(pathlib.Path):
+        def iterdir(self):
+            names = osproxy._perm([q.name for q in pathlib.Path(str(self)).iterdir()])
+            for n in names:
+                yield self / n
+    return SimPath
